@@ -893,7 +893,12 @@ package pfcp
 //@     assert [rn] forall i int :: 0 <= i && i < len(s.lnode.sess) && s.lnode.sess[i] != nil ==> s.lnode.sess[i].rnode != recv && s.lnode.sess[i].rnode.ID != rnodeid
 //@   at call NewNode:
 //@     unfold srvWF(s)
+//@   at call newIeNodeID:
+//@     assert [own]   arg0 == s.nodeID
+//@   after call newIeNodeID:
+//@     set NODEIE := ret0
 //@   at call NewAssociationSetupResponse:
+//@     assert [nodeid] len(arg1) == 3 && arg1[0] == NODEIE
 //@     assert [ln]     forall i int :: 0 <= i && i < len(s.lnode.sess) && s.lnode.sess[i] != nil ==> s.lnode.sess[i].rnode != s.rnodes[rnodeid] && s.lnode.sess[i].rnode.ID != rnodeid
 //@     assert [nodes]  nodesWF(s)
 //@     assert [linked] linked(s)
@@ -1018,7 +1023,12 @@ package pfcp
 //@     assert [memold] forall i int :: 0 <= i && i < len(s.lnode.sess) && s.lnode.sess[i] != nil && s.lnode.sess[i] != ret0 ==> old((uint64(i) + 1) in s.lnode.sess[i].rnode.sess)
 //@     assert [mem]    forall i int :: 0 <= i && i < len(s.lnode.sess) && s.lnode.sess[i] != nil && s.lnode.sess[i] != ret0 ==> (uint64(i) + 1) in s.lnode.sess[i].rnode.sess
 //@     assert [linked] linked(s)
+//@   at call newIeNodeID:
+//@     assert [own]   arg0 == s.nodeID
+//@   after call newIeNodeID:
+//@     set NODEIE := ret0
 //@   at call NewSessionEstablishmentResponse:
+//@     assert [nodeid] len(arg5) >= 3 && arg5[len(arg5)-3] == NODEIE
 //@     assert [seid]  arg2 == sess.RemoteID && sess.RemoteID == fseid.SEID && arg3 == req.Header.SequenceNumber
 //@     assert [cause] len(arg5) >= 3 && arg5[len(arg5)-2] == ie.NewCause(ie.CauseRequestAccepted)
 //@     assert [fseid] arg5[len(arg5)-1] == ie.NewFSEID(sess.LocalID, v4, v6)
@@ -1339,3 +1349,12 @@ package pfcp
 //@   modifies nothing
 //@   reveal nodeInv lnodeWF allSessOK dpLive nodesWF linked registered
 //@   serves C06 C08 C20 C07
+
+// The UPF's own node id as an IE (C08): an IPv4 literal, an IPv6 literal or else an FQDN, built from the given string.
+//@ ghost NODEIE *ie.IE
+//@ func newIeNodeID(nodeID string) (r *ie.IE)
+//@   ensures [v4]   net.ParseIP(nodeID) != nil && net.ParseIP(nodeID).To4() != nil ==> r == ie.NewNodeID(nodeID, "", "")
+//@   ensures [v6]   net.ParseIP(nodeID) != nil && net.ParseIP(nodeID).To4() == nil ==> r == ie.NewNodeID("", nodeID, "")
+//@   ensures [fqdn] net.ParseIP(nodeID) == nil ==> r == ie.NewNodeID("", "", nodeID)
+//@   modifies nothing
+//@   serves C08 C07
